@@ -5,6 +5,14 @@ from twisted.internet import defer
 from vf import boot
 
 
+def _hv(v):
+    """header value on the wire: Latin-1 where possible (so that "\xff" is the single byte 0xff), UTF-8 otherwise"""
+    try:
+        return v.encode("latin-1")
+    except UnicodeEncodeError:
+        return v.encode("utf-8")
+
+
 class _WebService:
     def __init__(self, ops):
         self._ops = ops
@@ -118,7 +126,7 @@ class Web:
         proto.makeConnection(tr)
         req = b"%s %s HTTP/1.0\r\n" % (method.encode("ascii"), path if isinstance(path, bytes) else path.encode("utf-8"))
         for k, v in headers:
-            req += b"%s: %s\r\n" % (k.encode("latin-1"), v if isinstance(v, bytes) else v.encode("latin-1"))
+            req += b"%s: %s\r\n" % (k.encode("latin-1"), v if isinstance(v, bytes) else _hv(v))
         if body or method in ("PUT", "POST"):
             req += b"Content-Length: %d\r\n" % len(body)
         req += b"\r\n" + body
